@@ -23,8 +23,9 @@ pub mod futures {
         }
         pub trait AsyncBufReadExt { }
         pub use crate::shims::write_trait::AsyncWrite;
-        /// the extension methods live on the AsyncWrite shim itself
-        pub trait AsyncWriteExt { }
+        /// the extension methods of an AsyncWrite implementor live on the AsyncWrite shim itself;
+        /// for the runtime's own File (== the std File shim after R2) they are the std Write methods
+        pub use crate::shims::write_trait::Write as AsyncWriteExt;
     }
     pub mod stream { pub trait StreamExt { } }
     pub mod prelude { }
